@@ -5,7 +5,7 @@ from symx.api import *
 PROPERTY = 'C10'
 LEVEL = 'other'
 FILES = ['mesonbuild/interpreter/dependencyfallbacks.py', 'mesonbuild/wrap/wrap.py', 'mesonbuild/utils/universal.py']
-ENCODED = ['DependencyFallbacksHolder.__init__/set_fallback/lookup/_get_candidates/_do_dependency_cache/_do_dependency/_do_existing_subproject/_do_subproject/'
+ENCODED = ['PackageDefinition.parse_provide_section', 'Resolver.add_wrap / find_dep_provider / find_program_provider', 'DependencyFallbacksHolder.__init__/set_fallback/lookup/_get_candidates/_do_dependency_cache/_do_dependency/_do_existing_subproject/_do_subproject/'
            '_get_subproject_dep/_get_cached_dep/_check_version/_verify_fallback_consistency', 'WrapMode.from_string', 'version_compare_many', 'stringlistify',
            'wrap.Resolver._get_file_internal/_download/check_hash/check_can_download', 'wrap.Resolver._resolve (try/except around apply_patch / apply_diff_files)']
 EXPLANATION = ('Symbolic execution of the real dependency-fallback decision procedure with its environment replaced by nondeterministic stubs: wrap_mode, membership of the name / the '
